@@ -23,7 +23,6 @@ macro "own_auto" : tactic =>
       doCReady, doCGetc, doCWaitDone, doCGot, afterFail, loadOk, cDone, inWait, atFin] at *) <;>
       grind [List.append_ne_nil_of_right_ne_nil]))
 
-set_option maxHeartbeats 1000000 in
 theorem own_step {w s l s'} (hi : Inv w s) (ho : Own s) (hs : Step s l s') : Own s' := by
   have hidle := hi.idle_word
   have hattl := hi.c_attl
